@@ -81,7 +81,11 @@ More == { <<NRoot, NIdx(<<Sub1(Lit(0)), Sub1(Lit(1))>>), Gt1>>, <<NRoot, NIdx(<<
           <<NRoot, NIdx(<<Sub1(Lit(0)), Sub1(Lit(1))>>), NKey(KA)>>, <<NRoot, NIdx(<<Sub1(Lit(0)), Sub1(Lit(2))>>), NMethod("floor")>>,
           <<NRoot, NIdx(<<Sub1(<<NRoot, NIdx(<<Sub1(Lit(0)), Sub1(Lit(5))>>)>>)>>)>>,                       \* $[$[0, 5]]
           <<NRoot, NIdx(<<Sub1(<<NRoot, NAnyArr, NMethod("floor")>>)>>)>>,                                \* $[$[*].floor()]
-          <<NRoot, NIdx(<<Sub2(Lit(0), <<NRoot, NIdx(<<Sub1(Lit(1)), Sub1(Lit(7))>>)>>)>>)>> }            \* $[0 to $[1, 7]]
+          <<NRoot, NIdx(<<Sub2(Lit(0), <<NRoot, NIdx(<<Sub1(Lit(1)), Sub1(Lit(7))>>)>>)>>)>>,             \* $[0 to $[1, 7]]
+          (* a bound that starts with an integer literal and goes on: the accessors count *)
+          <<NRoot, NIdx(<<Sub1(<<NInt(-2), NMethod("abs")>>)>>)>>, <<NRoot, NIdx(<<Sub1(<<NInt(0), NMethod("size")>>)>>)>>,
+          <<NRoot, NIdx(<<Sub1(<<NInt(2), NMethod("type")>>)>>)>>, <<NRoot, NIdx(<<Sub1(<<NInt(1), Gt1>>)>>)>>,
+          <<NRoot, NIdx(<<Sub2(<<NInt(0), NMethod("size")>>, <<NInt(-2), NMethod("abs")>>)>>)>> }
 NestedSeq == SetToSeq(Nested \cup FromDoc \cup More)
 
 PathOfAbs(sl) == <<NRoot, NIdx([j \in 1..Len(sl) |-> SubOf(sl[j])])>>
